@@ -512,6 +512,40 @@ def rule_relex_window(prog):
         out.add("lexer::lex", "token ranges refer to the text that was handed in", bool(a0) and a0["id"] == pid, c.loc(spans[0]["sp"]),
                 "the Span the tokens take their ranges from is not built over the `src` parameter itself: a trimmed or re-sliced input "
                 "shifts every range against the text the caller (AnalyzedSource.text, lexer::update, the features) keeps", ("lexinput",))
+    # the old tokens that survive behind the re-lexed ones are those that *begin* at or behind the end of the last re-lexed token: a
+    # selection by where an old token *ends* keeps a token that begins inside the re-lexed text and reaches beyond it (a comment owns
+    # its line break) - two tokens then cover the same text
+    for mc in hir.nodes_deep(prog, b["body"], 1, crate=c):
+        if mc.get("k") != "MethodCall" or mc["m"] not in ("skip_while", "take_while", "position", "find", "filter", "partition_point", "rposition"):
+            continue
+        if "Token" not in c.tstr(hir.strip(mc["recv"])["t"]) or not mc["args"]:
+            continue
+        clo = hir.strip(mc["args"][0])
+        if clo.get("k") != "Closure":
+            continue
+        pids = {bd["id"] for q in clo["params"] for bd in hir.pat_bindings(q)}
+        for cmp_ in hir.nodes(clo["body"], "Binary"):
+            if cmp_["op"] not in ("<", "<=", ">", ">="):
+                continue
+            sides = []
+            for sd in (cmp_["l"], cmp_["r"]):
+                sd_ = hir.strip_ref(hir.strip(sd))
+                if sd_.get("k") == "Field" and sd_["name"] in ("start", "end") and hir.strip(sd_["base"]).get("k") == "Field" and \
+                        hir.strip(sd_["base"])["name"] == "range":
+                    root = hir.path_local(hir.strip_ref(hir.strip(hir.strip(sd_["base"])["base"])))
+                    sides.append((sd_["name"], bool(root) and root["id"] in pids))
+                else:
+                    sides.append(None)
+            if None in sides or sides[0][1] == sides[1][1]:
+                continue
+            own = sides[0] if sides[0][1] else sides[1]
+            other = sides[1] if sides[0][1] else sides[0]
+            if other[0] != "end":
+                continue
+            out.add("lexer::update", "an old token survives behind the re-lexed ones only if it begins at or behind their end", own[0] == "start",
+                    c.loc(cmp_["sp"]), "the old tokens to keep are selected by their `range.%s` against the end of the last re-lexed token: an old "
+                    "token that begins inside the re-lexed text but ends behind it (a comment includes its line break) is kept, the token "
+                    "stream has two tokens over the same text" % own[0], ("tail", "overlap"))
     # the tail of old tokens that survives: when its start is an index found by a search (`position(..)`), a failed search means that
     # re-lexing ran to the end of the text without meeting an old token - *no* old token survives.  A default of 0 keeps all of them
     defs_ = {}
